@@ -348,6 +348,49 @@ class CallMixin:
         self.yields.append(("stmt", v, lw))
         return lw
 
+    def _parse_template_text(self, text, kwargs, args):
+        """ast.parse(<text assembled by the builder>): the concrete pieces are parsed for real, the
+        symbolic pieces (fresh names, lengths of user lists) are parsed as placeholder names and put
+        back into the resulting template nodes.  None when the text cannot be handled that way."""
+        parts = text.parts if isinstance(text, Str) else [text.value]
+        src, holes = "", {}
+        for p in parts:
+            if isinstance(p, str):
+                src += p
+            elif isinstance(p, Cst) and isinstance(p.value, (str, int)):
+                src += str(p.value)
+            else:
+                inner = p
+                if isinstance(p, StrOp) and p.op in ("str", "format") and p.args:
+                    inner = p.args[0]
+                if not isinstance(inner, (Sym, Fresh, UPrim, Str)):
+                    return None
+                name = f"olsa_ph{len(holes)}_"
+                holes[name] = inner
+                src += name
+        mode = kwargs.get("mode") or (args[2] if len(args) > 2 else Cst("exec"))
+        if not (isinstance(mode, Cst) and mode.value in ("eval", "exec")):
+            return None
+        try:
+            tree = ast.parse(src, mode=mode.value)
+        except SyntaxError:
+            return None
+        site = self.cur_site
+
+        def conv(n):
+            if isinstance(n, ast.Name) and n.id in holes:
+                v = holes[n.id]
+                if isinstance(v, Sym):
+                    return TNode("Constant", {"value": v}, site)
+                return TNode("Name", {"id": v, "ctx": TNode(type(n.ctx).__name__, {}, site)}, site)
+            if isinstance(n, ast.AST):
+                return TNode(type(n).__name__, {f: conv(getattr(n, f)) for f in n._fields if hasattr(n, f)}, site)
+            if isinstance(n, list):
+                return PList([conv(x) for x in n])
+            return Cst(n)
+
+        return conv(tree)
+
     # ---------------------------------------------------- builtin functions
     def call_ext(self, f: Ext, args, kwargs, node, fr):
         d = f.dotted
@@ -359,6 +402,10 @@ class CallMixin:
             if name == "typing.cast":
                 return args[1]
             return Unknown(d)
+        if d == "ast.parse" and args and isinstance(args[0], (Str, Cst)):
+            t = self._parse_template_text(args[0], kwargs, args)
+            if t is not None:
+                return t
         if d == "warnings.warn":
             self.events.append(("warn", self.render_str(args[0]) if args else "", self.cur_site))
             return Cst(None)
